@@ -21,6 +21,10 @@ pub open spec fn format_wf(f: &NarseseFormat<&str>) -> bool {
     &&& f.compound.separator@.len() > 0
 }
 
+pub open spec fn kw_at(env: Seq<char>, i: int, kw: Seq<char>) -> bool {
+    0 <= i && i + kw.len() <= env.len() && env.subrange(i, i + kw.len()) == kw
+}
+
 pub open spec fn mid_empty(m: MidParseResult) -> bool {
     m.budget is None && m.term is None && m.punctuation is None && m.stamp is None && m.truth is None
 }
@@ -49,6 +53,16 @@ impl<'a> ParseState<'a, &'a str> {
     }
     pub open spec fn same_input(&self, o: &Self) -> bool {
         self.format == o.format && self.env == o.env && self.len_env == o.len_env
+    }
+    /// some copula of the format occurs in the environment at position i
+    pub open spec fn copula_at(&self, i: int) -> bool {
+        exists|k: int| 0 <= k < 13 && kw_at(self.env@, i, #[trigger] copula_seq(self.format)[k])
+    }
+    /// "maximal munch": an atom name ends only at the end of input, at a character that cannot
+    /// be part of a name, or where a copula starts
+    pub open spec fn name_ended(&self) -> bool {
+        self.head >= self.len_env || self.copula_at(self.head as int)
+            || !self.format.is_valid_atom_name.spec_call(self.env@[self.head as int])
     }
     /// `kw` occurs in the environment at the cursor
     pub open spec fn at_head(&self, kw: Seq<char>) -> bool {
